@@ -365,6 +365,87 @@ theorem linker_counts_after (subStatus : σ → Id → Status) (subIter : σ →
       show subIter (linkerPass L o sel t (k + 1) (traj (asInterp L sel) o t u0 k)).1 j = _
       rw [hstep.2 j hj, ih2 j hj]
 
+/-- The remaining get/set laws of the submodels' bookkeeping: the reset, and who leaves the counters alone. -/
+structure CountLaws (subIter : σ → Id → Int) (sel : List Id) : Prop where
+  reset_same : ∀ u i, subIter (L.resetIter u i t) i = 0
+  reset_other : ∀ u i j, j ≠ i → subIter (L.resetIter u i t) j = subIter u j
+  stamp_iter : ∀ u i s j, subIter (L.stampSub u i t s) j = subIter u j
+  solveBefore : ∀ o u j, subIter (L.solveBefore o u sel t).1 j = subIter u j
+  solveAfter : ∀ o u k j, subIter (L.solveAfter o u sel t k).1 j = subIter u j
+
+theorem resetAll_zero (subIter : σ → Id → Int) (sel0 : List Id) (hc : CountLaws L t subIter sel0) [DecidableEq Id] :
+    ∀ (sel : List Id) (u : σ), (resetAll L t sel u).2 = false →
+      ∀ i, i ∈ sel → subIter (resetAll L t sel u).1 i = 0 := by
+  intro sel
+  induction sel with
+  | nil => intro u _ i h; simp at h
+  | cons a rest ih =>
+    intro u h i hi
+    simp only [resetAll] at h ⊢
+    by_cases hk : L.known a = true
+    · simp only [hk, if_true] at h ⊢
+      by_cases hin : i ∈ rest
+      · exact ih _ h i hin
+      · have hia : i = a := by
+          rcases List.mem_cons.mp hi with h' | h'
+          · exact h'
+          · exact absurd h' hin
+        subst hia
+        have keep : ∀ (l : List Id) (u' : σ), i ∉ l → (resetAll L t l u').2 = false →
+            subIter (resetAll L t l u').1 i = subIter u' i := by
+          intro l
+          induction l with
+          | nil => intro u' _ _; rfl
+          | cons b l ih2 =>
+            intro u' hn hb
+            simp only [resetAll] at hb ⊢
+            by_cases hkb : L.known b = true
+            · simp only [hkb, if_true] at hb ⊢
+              rw [ih2 _ (fun h => hn (List.mem_cons_of_mem _ h)) hb]
+              exact hc.reset_other _ _ _ (fun e => hn (e ▸ List.mem_cons_self))
+            · simp [hkb] at hb
+        rw [keep rest _ hin h]
+        exact hc.reset_same _ _
+    · simp [hk] at h
+
+theorem stampSubs_iter (subIter : σ → Id → Int) (sel0 : List Id) (hc : CountLaws L t subIter sel0) (s : Status) :
+    ∀ (sel : List Id) (u : σ) (j : Id), subIter (stampSubs L t s sel u) j = subIter u j := by
+  intro sel
+  induction sel with
+  | nil => intro u j; rfl
+  | cons a rest ih => intro u j; simp only [stampSubs]; rw [ih, hc.stamp_iter]
+
+/-- **A solved period: every selected submodel carries the linker's status and the linker's iteration count.**
+    Under the conditions of `linker_converges` (first accepted pass `k0`), after `solve_t` each selected submodel's
+    status is '.' and its iteration counter equals `k0` — the count stamped on the linker itself. -/
+theorem linker_converged_submodels (subStatus : σ → Id → Status) (subIter : σ → Id → Int)
+    (hl : Lawful L t subStatus subIter) [DecidableEq Id] (sel : List Id) (hkp : HooksKeepIter L t subIter sel)
+    (hc : CountLaws L t subIter sel) (hnd : sel.Nodup) (w : World σ) (u1 : σ)
+    (hseed : lSolveT L o n t sel w = lCore L o n t sel w u1)
+    (hreset : (resetAll L t sel u1).2 = false)
+    (hb : (L.solveBefore o (resetAll L t sel u1).1 sel t).2 = false)
+    (k0 : Nat) (h1 : 1 ≤ k0) (hk : (k0 : Int) ≤ o.maxIter)
+    (hev : ∀ i, i < k0 →
+      (linkerPass L o sel t (i + 1)
+        (traj (asInterp L sel) o t (L.solveBefore o (resetAll L t sel u1).1 sel t).1 i)).2 = false)
+    (hleast : ∀ i, 0 < i → i < k0 →
+      ¬ Good (asInterp L sel) o t (L.solveBefore o (resetAll L t sel u1).1 sel t).1 (L.check u1 sel t) i)
+    (hgood : Good (asInterp L sel) o t (L.solveBefore o (resetAll L t sel u1).1 sel t).1 (L.check u1 sel t) k0)
+    (ha : (L.solveAfter o (traj (asInterp L sel) o t (L.solveBefore o (resetAll L t sel u1).1 sel t).1 k0)
+            sel t k0).2 = false) :
+    ∀ i, i ∈ sel →
+      subStatus (lSolveT L o n t sel w).1.user i = .solved ∧ subIter (lSolveT L o n t sel w).1.user i = k0 := by
+  intro i hi
+  rw [linker_converges L o n t sel w u1 hseed hreset hb k0 h1 hk hev hleast hgood ha]
+  simp only [stamp_user]
+  show subStatus (stampSubs L t .solved sel _) i = .solved ∧ subIter (stampSubs L t .solved sel _) i = k0
+  refine ⟨stampSubs_selected L t subStatus subIter hl .solved sel _ i hi, ?_⟩
+  rw [stampSubs_iter L t subIter sel hc, hc.solveAfter]
+  have hcnt := (linker_counts_after L o t subStatus subIter hl sel hkp hnd
+    (L.solveBefore o (resetAll L t sel u1).1 sel t).1 k0 (fun j hj => hev j hj)).1 i hi
+  rw [hcnt, hc.solveBefore, resetAll_zero L t subIter sel hc sel u1 hreset i hi]
+  omega
+
 /-! ### Construction -/
 
 theorem foldl_max_ge (l : List Nat) (b : Nat) : b ≤ l.foldl max b ∧ ∀ x ∈ l, x ≤ l.foldl max b := by
@@ -645,6 +726,20 @@ example (u : (Nat → Nat) × (Nat → Int) × (Nat → Status)) :
     (traj (asInterp exLF [0, 1]) {} 1 u 3).2.1 1 = u.2.1 1 + 3 ∧ (traj (asInterp exLF [0, 1]) {} 1 u 3).2.1 5 = u.2.1 5 := by
   have h := linker_counts_after exLF {} 1 _ _ exLF_lawful [0, 1] exLF_hooks (by decide) u 3 (by intro i _; rfl)
   exact ⟨by simpa using h.1 1 (by decide), h.2 5 (by decide)⟩
+
+private theorem exLF_countlaws : CountLaws exLF 1 (fun u i => u.2.1 i) [0, 1] where
+  reset_same := by intro u i; simp [exLF, upd]
+  reset_other := by intro u i j h; simp [exLF, upd, h]
+  stamp_iter := by intro u i s j; rfl
+  solveBefore := by intro o u j; rfl
+  solveAfter := by intro o u k j; rfl
+
+/-- `resetAll_zero` / `stampSubs_iter` (the laws `linker_converged_submodels` needs are satisfiable): resetting the two
+    selected submodels zeroes their counters; stamping leaves counters alone. -/
+example (u : (Nat → Nat) × (Nat → Int) × (Nat → Status)) :
+    (resetAll exLF 1 [0, 1] u).1.2.1 1 = 0 ∧ (stampSubs exLF 1 .solved [0, 1] u).2.1 1 = u.2.1 1 :=
+  ⟨resetAll_zero exLF 1 _ [0, 1] exLF_countlaws [0, 1] u rfl 1 (by decide),
+   stampSubs_iter exLF 1 _ [0, 1] exLF_countlaws .solved [0, 1] u 1⟩
 
 /-- `single_model_linker_eq_model`: a linker around the one model `C02.exI` (state = the model's value plus the
     submodel's iteration counter; projection = forget the counter), converging at pass 4. -/
